@@ -359,12 +359,16 @@ class Session:
         self.events.append(["eof", list(addr)])
 
     def read_error(self, addr):
-        self.d.read_error(addr)
+        # a connection can die in more than one way: a reset (ConnectionError) or another operating-system error (a time-out of a
+        # dead peer, no route to host) - every second injected fault is of the second kind
+        self.read_faults = getattr(self, "read_faults", 0) + 1
+        self.d.read_error(addr, None if self.read_faults % 2 else TimeoutError(110, "Connection timed out"))
         self.trace.append((f"LReadErr {self.aid(addr)}%N", self.ser()))
         self.events.append(["readerr", list(addr)])
 
     def write_fail(self, addr):
-        self.d.write_error(addr, on="write")
+        self.write_faults_n = getattr(self, "write_faults_n", 0) + 1
+        self.d.write_error(addr, None if self.write_faults_n % 2 else OSError(113, "No route to host"), on="write")
         self.trace.append((f"LWriteFail {self.aid(addr)}%N", self.ser()))
         self.events.append(["writefail", list(addr)])
 
